@@ -184,9 +184,6 @@ def errStr : Err → String
   | .unexpectedKey => "E:unexpectedkey"
   | .oob => "E:oob"
   | .noIndex => "E:noindex"
-  | .iterThrown => "E:iter:thrown"
-  | .iterUnimpl => "E:iter:kunimpl"
-  | .iterType => "E:iter:type"
   | .notReversible => "E:notrev"
   | .display => "E:display"
   | .diverge => "E:diverge"
